@@ -181,6 +181,16 @@ def gen_formula(rng, big):
 
 def generate(rng, tier):
     big = tier == "thorough"
+    if big and rng.random() < 0.003:
+        # the shipped GC threshold (2000 learned clauses) reached for real: threshold-ratio 3-SAT, z3 as oracle
+        n = rng.choice([100, 120, 150])
+        clauses = []
+        for _ in range(int(n * 4.26)):
+            vs = rng.sample(range(1, n + 1), 3)
+            clauses.append([v if rng.random() < 0.5 else -v for v in vs])
+        return {"clauses": clauses, "assumptions": [], "solution_limit": 1, "luby_factor": rng.choice([10, 100]),
+                "max_restarts": 10000, "max_conflicts": 12000, "gc": 2000,
+                "decide": {"policy": "vsids", "seed": 0, "p": 1.0}}
     if big and rng.random() < 0.02:
         # larger random 3-SAT near the threshold, judged by z3; un-patched GC threshold
         n = rng.choice([20, 30, 40, 50])
